@@ -170,6 +170,12 @@ let proto file =
          List.iter (fun l -> match split_ws l with
              | _ :: _ :: names ->
                  let ids = List.filter_map (fun s -> match sysid_of_string s with Some x -> Some x | None -> diff "unknown system %s" s; None) names in
+                 (* schedule audit: a change detector exists only for a type this peer registered
+                    with sync_component (hypothesis order_ok of the C04 theorems) *)
+                 List.iter (fun sid -> match sid with
+                     | SDetect t -> incr checked;
+                         if not (List.mem t (get pi).p_sync_types) then diff "schedule audit: peer %d runs a change detector for type %s it never registered" pi (ds t)
+                     | _ -> ()) ids;
                  g := gstep !g (StApp (pn, OSetOrder ids))
              | _ -> ()) (find "ORD");
          List.iter (fun l -> match split_ws l with
